@@ -660,3 +660,6 @@ M('frame-D41-shape-relabel-unchecked', ['C10'], FR, "            if shapef is no
 
 M('cli-D42-shape-numeric-id-kept', ['C12'], CLI, "            if isinstance(value := config.get(key), (int, float)) and not isinstance(value, bool):\n                config[key] = str(value)\n", "            pass\n", ['C12.R10'])
 M('seed7-C12-always-localhost', ['C12'], CLI, '''            addr, port = (output[6:].rsplit(":", 1) + ["5550"])[:2]\n            output = f'tcp://{"localhost" if addr[:1] in "*0" else addr}:{port}\'''', '''            port = (output[6:].rsplit(":", 1) + ["5550"])[:2][1]\n            output = f"tcp://localhost:{port}"''', ['C12.R7'])
+
+M('refresh-D43-shape-zero-sentinel', ['C13'], RL, "            old_timestamp, old_path, old_size = -1, 0, 0  # nothing seen yet: below every timestamp a file can have, 0 is one of them", "            old_timestamp = old_path = old_size = 0", ['C13.R11'])
+M('seed7-C13-seek-end-listed-size', ['C13', 'C14'], RL, "                        read_file.seek(0, 2)\n\n                        self.read_idx -= 1", "                        read_file.seek(logfiles[-1].size)\n\n                        self.read_idx -= 1", ['C13.R10', 'C14.R10'])
